@@ -53,7 +53,7 @@ def validatedFieldName (s : Str) : Out Str :=
 /-- `_tools.validated_python_name`: `none` = `NameError` -/
 def validatedPythonName (value : Str) : Out (Option Str) :=
   match generatedTokens (strip value) with
-  | .error .tokenError => .error .tokenError
+  | .error .tokenError => .error .iface
   | .error .unsupported => .error .unsupported
   | .ok (t :: rest) =>
     if t.isEof then .ok none
@@ -124,7 +124,7 @@ def buildField (cid : Cid) (cells : List Str) (withPlugins : Bool) : Out CidFiel
   let field ← declareFieldIn tn info allowEmpty lengthText rule
   -- validate the declared length
   if df.format == .fixed then
-    if field.length.items.isNone then .error .iface
+    if (field.length.items.getD []).isEmpty then .error .iface
     else if field.length.lowerLimit != field.length.upperLimit then .error .iface
     else match field.length.lowerLimit with
       | some l => if l < 1 then .error .iface else pure ()
